@@ -178,7 +178,14 @@ func c17MirrorCase(ctx *core.Ctx, e *gen.Entry, r *rand.Rand) (out []c17Pending)
 	var w *parquet.Writer
 	first := &c17Sink{failAfter: -1}
 	if r.Intn(4) == 0 {
-		first.failAfter = r.Intn(300)
+		// around the 4-byte file header (a Close that fails there keeps the rows), and anywhere
+		first.failAfter = []int{0, 1, 3, 4, 5, r.Intn(300), r.Intn(300), r.Intn(3000)}[r.Intn(8)]
+		if first.failAfter < 8 && r.Intn(2) == 0 { // no write buffer: the header write itself fails
+			c2 := *cfg
+			c2.writeBuf0 = true
+			c2.desc += " +writebuf=0"
+			cfg = &c2
+		}
 	}
 	if err := c17Guard(func() error {
 		w = parquet.NewWriter(first, append([]parquet.WriterOption{e.Schema}, cfg.opts()...)...)
@@ -264,6 +271,15 @@ func c17MirrorCase(ctx *core.Ctx, e *gen.Entry, r *rand.Rand) (out []c17Pending)
 			nd := after.n("def") - before.n("def")
 			if nd < 0 {
 				nd = 0
+			}
+			if perr != nil && before.f["off"] == "0" && after.n("off") < 4 {
+				// Close starts with the 4-byte file header when nothing has been written yet; a sink
+				// that takes fewer than 4 bytes (no write buffer in between) fails it there, before
+				// the flush: the writer keeps its rows and pages (writer.go (*writer).close)
+				// first every column writer closes (its rows become a page: a write-like effect)
+				ops = append(ops, "ch:"+after.f["off"]+":"+after.effs(""))
+				ctx.Hist("mirror-close-failed-at-file-header", "yes")
+				break
 			}
 			ops = append(ops, fmt.Sprintf("c:%s:%s:%d:%s:%s", k, after.f["off"], nd, after.f["fmd"], after.f["off"]))
 		case kind < 9: // SetKeyValueMetadata
